@@ -1,6 +1,7 @@
 import QuantemModel.Lemmas.Constraints
 import QuantemModel.Lemmas.GramSchmidt
 import QuantemModel.Lemmas.ConstraintsWeights
+import QuantemModel.Lemmas.ConstraintsParseval
 /-!
 C10 — object and probe constraints yield physically admissible models.
 Theorems are about `Model/Constraints.lean` at the real instance of the numeric carrier
@@ -168,6 +169,31 @@ theorem gs_intensities (P : Nat) (vs : List (Vec ℝ)) (hlen : ∀ v ∈ vs, v.l
   rw [← (gsUnsorted_spec P vs hlen hc).2]
   exact (List.mergeSort_perm (gsUnsorted vs) descLe).map intensity
 
+/-- **the `ClampInactive` hypothesis cannot be dropped**: a single (hence linearly independent) mode
+of norm `1e-13`, below the absolute `clamp_min(1e-12)`, comes back with intensity `1e-28` instead of
+`1e-26`.  Replayed on the real class by the harness (known finding `gs-intensity-multiset:clamp-active`). -/
+theorem gs_intensities_clamp_counterexample :
+    (gramSchmidt [[(⟨1/10^13, 0⟩ : Cx ℝ)]]).map intensity = [1/10^28] ∧
+    ([[(⟨1/10^13, 0⟩ : Cx ℝ)]] : List (Vec ℝ)).map intensity = [1/10^26] := by
+  have hv : vnorm [(⟨1/10^13, 0⟩ : Cx ℝ)] = 1/10^13 := by
+    simp only [vnorm, NumReal.sqrt_eq]
+    rw [norm2_eq]
+    simp only [List.map_cons, List.map_nil, List.sum_cons, List.sum_nil, mul_zero, add_zero]
+    exact Real.sqrt_mul_self (by positivity)
+  have hc : clampedNorm [(⟨1/10^13, 0⟩ : Cx ℝ)] = 1/10^12 := by
+    simp only [clampedNorm, hv, NumReal.max_eq, gsEps, NumReal.ofRat_eq]
+    push_cast
+    rw [max_eq_right] <;> norm_num
+  constructor
+  · simp only [gramSchmidt, gsUnsorted, orthoLoop, Constraints.residual, List.foldl_nil, List.nil_append,
+      rescale, List.map_cons, List.map_nil, List.zipWith_cons_cons, List.zipWith_nil_left,
+      List.mergeSort_singleton, Constraints.normalize, hc, hv, cdivR, Cx.smul, intensity_eq_norm2]
+    rw [norm2_eq]
+    norm_num
+  · simp only [List.map_cons, List.map_nil, intensity_eq_norm2]
+    rw [norm2_eq]
+    norm_num
+
 /-- **descending order**: the output modes are sorted by intensity, largest first (no hypothesis). -/
 theorem gs_sorted (vs : List (Vec ℝ)) :
     ((gramSchmidt vs).map intensity).Pairwise (fun a b => b ≤ a) := by
@@ -185,11 +211,11 @@ theorem gs_sorted (vs : List (Vec ℝ)) :
 
 /-! ## initial probe: `_apply_weights`
 
-`ParsevalOn ps`: Parseval's identity for the model's unitary 2-D DFT (`fft2Ortho`, the O(N²) sums of
-Core/Dft) on the images of `ps`.  It is a HYPOTHESIS of the two `_partial` theorems below (what is
-missing for the full statement is its proof for `Dft.dft2`; the harness measures it with numpy's
-fft2 on every case).  The full statements would read the same without `hP`, `hP'`.
-(`ParsevalOn ps := ∀ p ∈ ps, energy (fft2Ortho p) = energy p`, Lemmas/ConstraintsWeights.lean) -/
+`RectImg nr nc p` (Lemmas/ConstraintsParseval.lean): `p` is a non-empty `nr × nc` image.
+"Diffraction intensity" is `diffIntensity = Σ |fft2(p, norm="ortho")|²` with the model's O(N²) DFT
+(Core/Dft); Parseval for it comes from the spectral core shared with C16
+(`PtychoOps.energy_dft2`, Lemmas/PtychoOpsForward.lean). -/
+
 /-- **real-space intensity of every mode** after `_apply_weights` — no Parseval needed:
 `I_k = w_k · (M / D) · S`, `D` = total diffraction intensity, `S` = total real-space intensity of
 the input stack. -/
@@ -200,39 +226,47 @@ theorem weights_realspace_intensity (M : ℝ) (w : List ℝ) (probes : List (Img
       = w.map (· * (M / diffIntensity probes * (probes.map energy).sum)) :=
   applyWeights_energy M w probes hMD hw hE hlen
 
-/-- **requested relative mode weights** (partial: Parseval for the input stack is a hypothesis):
-mode `k` of the initial probe carries `w_k · M`. -/
-theorem weights_mode_intensity_partial (M : ℝ) (w : List ℝ) (probes : List (Img ℝ))
+/-- **requested relative mode weights**: real-space (= diffraction, by Parseval) intensity of mode
+`k` of the initial probe is `w_k · M`, for every stack of non-empty rectangular images with
+non-zero modes, non-negative weights and positive mean intensity `M`. -/
+theorem weights_mode_intensity (M : ℝ) (w : List ℝ) (probes : List (Img ℝ))
     (hM : 0 < M) (hw : ∀ x ∈ w, 0 ≤ x) (hE : ∀ p ∈ probes, 0 < energy p)
-    (hlen : w.length = probes.length) (hP : ParsevalOn probes) :
-    (applyWeights M w probes).map energy = w.map (· * M) := by
-  cases probes with
-  | nil =>
-    have : w = [] := List.length_eq_zero_iff.mp (by simpa using hlen)
-    subst this
-    simp [applyWeights]
-  | cons p ps =>
-    have hD := diffIntensity_of_parseval (p :: ps) hP
-    have hS : 0 < ((p :: ps).map energy).sum := by
-      have h1 := hE p (by simp)
-      have h2 : 0 ≤ (ps.map energy).sum := List.sum_nonneg (fun x hx => by
-        simp only [List.mem_map] at hx; obtain ⟨q, _, rfl⟩ := hx; exact energy_nonneg q)
-      simp only [List.map_cons, List.sum_cons]
-      linarith
-    rw [applyWeights_energy M w (p :: ps) (by rw [hD]; exact div_pos hM hS) hw hE hlen, hD]
-    apply List.map_congr_left
-    intro x _
-    field_simp
+    (hlen : w.length = probes.length) (hrect : ∀ p ∈ probes, ∃ nr nc, RectImg nr nc p) :
+    (applyWeights M w probes).map energy = w.map (· * M) ∧
+    (applyWeights M w probes).map (fun p => energy (fft2Ortho p)) = w.map (· * M) := by
+  have hP := parsevalOn_of_rect probes hrect
+  have hP' := parsevalOn_of_rect _ (applyWeights_rect M w probes hrect)
+  have key : (applyWeights M w probes).map energy = w.map (· * M) := by
+    cases probes with
+    | nil =>
+      have : w = [] := List.length_eq_zero_iff.mp (by simpa using hlen)
+      subst this
+      simp [applyWeights]
+    | cons p ps =>
+      have hD := diffIntensity_of_parseval (p :: ps) hP
+      have hS : 0 < ((p :: ps).map energy).sum := by
+        have h1 := hE p (by simp)
+        have h2 : 0 ≤ (ps.map energy).sum := List.sum_nonneg (fun x hx => by
+          simp only [List.mem_map] at hx; obtain ⟨q, _, rfl⟩ := hx; exact energy_nonneg q)
+        simp only [List.map_cons, List.sum_cons]
+        linarith
+      rw [applyWeights_energy M w (p :: ps) (by rw [hD]; exact div_pos hM hS) hw hE hlen, hD]
+      apply List.map_congr_left
+      intro x _
+      field_simp
+  refine ⟨key, ?_⟩
+  rw [← key]
+  exact List.map_congr_left hP'
 
-/-- **total diffraction intensity equals the measured mean intensity** (partial: Parseval for the
-input and the output stack are hypotheses), for weights summing to one. -/
-theorem weights_total_partial (M : ℝ) (w : List ℝ) (probes : List (Img ℝ))
+/-- **total diffraction intensity equals the measured mean intensity** for weights summing to one
+(the setter normalises them, the defaults sum to one: see below). -/
+theorem weights_total (M : ℝ) (w : List ℝ) (probes : List (Img ℝ))
     (hM : 0 < M) (hw : ∀ x ∈ w, 0 ≤ x) (hE : ∀ p ∈ probes, 0 < energy p)
     (hlen : w.length = probes.length) (hsum : Num.sum w = 1)
-    (hP : ParsevalOn probes) (hP' : ParsevalOn (applyWeights M w probes)) :
+    (hrect : ∀ p ∈ probes, ∃ nr nc, RectImg nr nc p) :
     diffIntensity (applyWeights M w probes) = M := by
-  rw [diffIntensity_of_parseval _ hP', weights_mode_intensity_partial M w probes hM hw hE hlen hP,
-    List.sum_map_mul_right]
+  rw [diffIntensity_of_parseval _ (parsevalOn_of_rect _ (applyWeights_rect M w probes hrect)),
+    (weights_mode_intensity M w probes hM hw hE hlen hrect).1, List.sum_map_mul_right]
   rw [numSum_eq] at hsum
   simp [hsum]
 
@@ -273,14 +307,14 @@ example : ClampInactive [] [[⟨1, 0⟩, ⟨0, 0⟩], [⟨1, 0⟩, ⟨1, 0⟩]] 
     rcases hv with rfl | rfl <;> rfl
 
 /-- a two-mode stack of 1×2 images, weights (3/4, 1/4), mean intensity 5: every hypothesis of the
-weight theorems holds (Parseval proved for these images by direct evaluation of the model's DFT) -/
+weight theorems holds -/
 example :
     let probes : List (Img ℝ) := [[[⟨1, 0⟩, ⟨0, 1⟩]], [[⟨0, 2⟩, ⟨1, 0⟩]]]
     let w : List ℝ := [3/4, 1/4]
     (0 : ℝ) < 5 ∧ (∀ x ∈ w, 0 ≤ x) ∧ (∀ p ∈ probes, 0 < energy p) ∧ w.length = probes.length ∧
-      Num.sum w = 1 ∧ ParsevalOn probes ∧ ParsevalOn (applyWeights 5 w probes) := by
+      Num.sum w = 1 ∧ (∀ p ∈ probes, ∃ nr nc, RectImg nr nc p) := by
   intro probes w
-  refine ⟨by norm_num, ?_, ?_, rfl, ?_, ?_, ?_⟩
+  refine ⟨by norm_num, ?_, ?_, rfl, ?_, ?_⟩
   · intro x hx
     simp only [w, List.mem_cons, List.not_mem_nil, or_false] at hx
     rcases hx with rfl | rfl <;> norm_num
@@ -290,10 +324,6 @@ example :
   · rw [numSum_eq]; norm_num [w]
   · intro p hp
     simp only [probes, List.mem_cons, List.not_mem_nil, or_false] at hp
-    rcases hp with rfl | rfl <;> exact parseval_1x2 _ _
-  · intro p hp
-    simp only [applyWeights, probes, w, scaleImg, List.map_cons, List.map_nil, List.zipWith_cons_cons,
-      List.zipWith_nil_left, List.mem_cons, List.not_mem_nil, or_false] at hp
-    rcases hp with rfl | rfl <;> exact parseval_1x2 _ _
+    rcases hp with rfl | rfl <;> exact ⟨1, 2, by norm_num, by norm_num, rfl, by simp⟩
 
 end QuantemModel.Props.C10
